@@ -699,7 +699,12 @@ class RowWiseModifiedBisectionSearch:
                 nbh_start = nbh_max
                 # continueLoop = True
                 # highT_e = T_lower
+                # the full field at the largest spacing meets the limits: it is the fallback when
+                # no reduced field does
+                selected_coordinates = lower_field
                 selected_specifier = lower_field_specifier
+                selected_temp_excess = t_lower
+                selected_spacing = spacing_stop
                 i = 0
                 while i < self.max_iter:
                     nbh = (nbh_max + nbh_min) // 2
